@@ -58,6 +58,14 @@ def main(argv=None) -> int:
             rep.extra["neutral_variant"] = nr
             if nr["exit"] != 0:
                 rep.errors.append(f"SELFTEST neutral variant ({nr['variant']}) is not silent: exit {nr['exit']} {nr['first']}")
+            from .selftest.run import refactor_runs
+            rr = refactor_runs(pid, project.repo)
+            rep.extra["refactorings"] = rr
+            for r in rr:
+                if r["got"] == "false-alarm":
+                    rep.errors.append(f"SELFTEST behaviour-preserving refactoring {r['refactor']} raises an alarm: {r['first']}")
+                elif r["got"] == "patch-does-not-apply":
+                    rep.note(f"refactoring {r['refactor']} no longer applies (source changed)")
             res = sensitivity(pid, project.repo)
             rep.extra["sensitivity"] = res
             rep.extra["sensitivity_summary"] = {
